@@ -427,7 +427,7 @@ def make_dict_structure_fn(
                 # For each attribute, we try resolving the type here and now.
                 # If a type is manually overwritten, this function should be
                 # regenerated.
-                handler = converter.get_structure_hook(t)
+                handler = find_structure_handler(a, t, converter)
 
             kn = an if override.rename is None else override.rename
             allowed_fields.add(kn)
@@ -470,7 +470,7 @@ def make_dict_structure_fn(
                     # For each attribute, we try resolving the type here and now.
                     # If a type is manually overwritten, this function should be
                     # regenerated.
-                    handler = converter.get_structure_hook(t)
+                    handler = find_structure_handler(a, t, converter)
 
                 struct_handler_name = f"__c_structure_{ix}"
                 internal_arg_parts[struct_handler_name] = handler
